@@ -48,6 +48,7 @@ type epochInfo struct {
 type obligation struct {
 	quickOnly bool
 	retried   bool // solved a second time after the first attempt ran out of time
+	noRetry   bool // unclaimed obligation in the thorough tier: one attempt only
 	name   string
 	fn     string
 	kind   string
